@@ -506,7 +506,10 @@ const DATA_CMDS: [&str; 22] = ["get secret", "get-safe secret", "get public1", "
     "get $$secret", "set $$secret hacked", "remove $$token", "increment $$secret 1", "watch $$secret"];
 const ADMIN_CMDS: [&str; 9] = ["create-db x xt", "create-user eve et", "set-permissions usr rwix *", "snapshot false d", "cluster-state", "metrics-state",
     "replicate d secret -1 replaced", "replicate-remove d secret", "debug list-dbs"];
-const USE_FAIL: [&str; 4] = ["use-db d wrong", "use-db d usr wrong", "use-db nosuch tok", "use-db d nolist wrong"];
+// wrong credentials: unrelated text, the stored secret with something appended / prepended, a proper prefix of it, another case, the empty text
+const USE_FAIL: [&str; 12] = ["use-db d wrong", "use-db d usr wrong", "use-db nosuch tok", "use-db d nolist wrong",
+    "use-db d tok2", "use-db d to", "use-db d xtok", "use-db d TOK", "use-db d usr ut-more", "use-db d usr u", "use-db d usr UT", "use-db d nolist ntnt"];
+const AUTH_FAIL: [&str; 6] = ["auth u pp", "auth u p2", "auth u P", "auth uu p", "auth u wrong", "auth U p"];
 
 fn ref_allowed(login: &str, key: &str, kind: char) -> bool {
     if key.starts_with("$$") { return false; }
@@ -581,6 +584,13 @@ fn scenario_session(sc: &str) -> Result<Violations, String> {
             // ---- C09: a failed use-db leaves the previous selection untouched
             if USE_FAIL.contains(cmd) {
                 chk(&mut v, "C09.failed-use-db", is_err(&r) && (c.selected_db_name(), c.selected_db_user_name()) == sel_before);
+                for l in ["C09.db-token", "C09.user-token", "C09.use-db-credentials"] { chk(&mut v, l, is_err(&r)); }
+            }
+            // ---- C09: only the exact administrator name and password authenticate a session
+            if AUTH_FAIL.contains(cmd) {
+                let authed = c.auth.load(std::sync::atomic::Ordering::SeqCst);
+                chk(&mut v, "C09.auth-exact-credentials", !authed);
+                chk(&mut v, "C09.auth-gate", !authed);
             }
             // ---- C01: keys lists exactly the live keys matching the pattern, sorted, hiding $$ keys
             if word == "keys" && !login.is_empty() && !is_err(&r) {
@@ -611,6 +621,7 @@ fn all_session_scenarios() -> Vec<String> {
         for k in PERM_KEYS { for c in ["get", "set", "increment", "remove", "watch"] { out.push(format!("{}|{} {}{}", l, c, k, if c == "set" { " v" } else if c == "increment" { " 1" } else { "" })); } }
         for pat in ["keys g*", "keys *e", "keys on", "keys go*"] { out.push(format!("{}|{}", l, pat)); }
         for f in USE_FAIL { for a in ["get secret", "get public1", "set secret x", "keys", "remove sea"] { out.push(format!("{}|{};{}", l, f, a)); } }
+        for f in AUTH_FAIL { for a in ["create-db x xt", "get $$secret", "set-permissions usr rwix *", "set $$secret hacked"] { out.push(format!("{}|{};{}", l, f, a)); } }
         // a session that registers itself as arbiter (or watches the conflict channel) gains no right to write
         for pre in ["arbiter", "watch $conflicts"] { for r in RESOLVE_CMDS { out.push(format!("{}|{};{}", l, pre, r)); } }
         for a in ["set public1 y", "remove public1", "remove secret", "increment sea 1"] { for b in ["keys", "keys *", "get public1", "get secret", "keys pub*"] { out.push(format!("{}|{};{}", l, a, b)); } }
@@ -620,6 +631,240 @@ fn all_session_scenarios() -> Vec<String> {
     }
     out
 }
+
+// ------------------------------------------------------------------ family: values (C01: what is written is what is read, byte for byte, also when it ends in blanks)
+const EDGE_VALUES: [&str; 10] = ["a", "a ", "a  ", "a\t", "two words ", " ", "  ", "x \t ", "tab\tinside", "ação ✓ "];
+fn scenario_values(sc: &str) -> Result<Violations, String> {
+    // sc = "<value idx>|<write kind: set | safe | term>"   term: the line arrives with its "\n" terminator (as the TCP transport delivers it)
+    let p: Vec<&str> = sc.split('|').collect();
+    let val = *EDGE_VALUES.get(p[0].parse::<usize>().map_err(|_| "bad idx")?).ok_or("bad idx")?;
+    let w = mk_world(0);
+    let mut v: Violations = vec![];
+    let (mut c, mut rx) = Client::new_empty_and_receiver();
+    let (mut wch, mut wrx) = Client::new_empty_and_receiver();
+    run_cmd(&w, &mut c, &mut rx, "use-db d tok");
+    run_cmd(&w, &mut wch, &mut wrx, "use-db d tok");
+    run_cmd(&w, &mut wch, &mut wrx, "watch vk");
+    drain(&mut wrx);
+    let line = match p[1] { "set" => format!("set vk {}", val), "safe" => format!("set-safe vk -1 {}", val), "term" => format!("set vk {}\n", val), _ => return Err("bad kind".into()) };
+    let out = catch_unwind(AssertUnwindSafe(|| { let r = run_cmd(&w, &mut c, &mut rx, &line); (r, run_cmd(&w, &mut c, &mut rx, "get vk")) }));
+    let ((wr, _), (r, _)) = match out { Ok(x) => x, Err(_) => { v.push("C10.safety".into()); return Ok(v); } };
+    if is_err(&wr) { return Err("write refused".into()); }
+    let stored = { let m = w.dbs.map.read().unwrap(); m.get("d").unwrap().get_value("vk".into()).map(|e| e.value) };
+    let read = match &r { Response::Value { value, .. } => Some(value.clone()), _ => None };
+    let told = drain(&mut wrx);
+    let ok = stored.as_deref() == Some(val) && read.as_deref() == Some(val);
+    chk(&mut v, "C01.value-round-trip", ok);
+    for l in ["C01.set-visible", "C01.read-last-written"] { chk(&mut v, l, ok); }
+    chk(&mut v, "C03.emit-set", told.iter().any(|m| m == &format!("changed vk {}\n", val)));
+    Ok(v)
+}
+fn all_values_scenarios() -> Vec<String> {
+    let mut out = vec![];
+    for i in 0..EDGE_VALUES.len() { for k in ["set", "safe", "term"] { out.push(format!("{}|{}", i, k)); } }
+    out
+}
+
+// ------------------------------------------------------------------ family: forward (C08 / C09 on a secondary: a write the guard refuses is not handed to the primary either)
+const FORWARD_CMDS: [&str; 14] = ["set $$secret hacked", "set-safe $$secret 0 hacked", "increment $$secret 1", "remove $$secret", "remove $$token", "set $$user_usr hacked", "set $$permission_$usr rwix *",
+    "set secret x", "set public1 y", "increment sea 1", "increment cnt 1", "remove public1", "remove secret", "set-safe public1 0 z"];
+fn scenario_forward(sc: &str) -> Result<Violations, String> {
+    // sc = "<login idx>|<cmd>": the node is a secondary whose member table names a primary; the line the primary would receive is read from the link
+    let p: Vec<&str> = sc.splitn(2, '|').collect();
+    let login = LOGIN[p[0].parse::<usize>().map_err(|_| "bad login")?];
+    let cmd = p[1];
+    let w = mk_world(0);
+    let (ptx, mut prx): (Sender<String>, Receiver<String>) = channel(1000);
+    w.dbs.add_cluster_member(ClusterMember { name: "primary:1".into(), role: ClusterRole::Primary, sender: Some(ptx) });
+    w.dbs.node_state.swap(ClusterRole::Secoundary as usize, std::sync::atomic::Ordering::Relaxed);
+    let mut v: Violations = vec![];
+    let (mut c, mut rx) = Client::new_empty_and_receiver();
+    if !login.is_empty() { run_cmd(&w, &mut c, &mut rx, login); }
+    drain(&mut prx);
+    let out = catch_unwind(AssertUnwindSafe(|| run_cmd(&w, &mut c, &mut rx, cmd)));
+    let (r, _) = match out { Ok(x) => x, Err(_) => { v.push("C10.safety".into()); return Ok(v); } };
+    let sent = drain(&mut prx);
+    let word = cmd.split(' ').next().unwrap_or("");
+    let key = cmd.split(' ').nth(1).unwrap_or("");
+    let kind = match word { "set" | "set-safe" => 'w', "increment" => 'i', _ => 'x' };
+    if key.starts_with("$$") {
+        // the session is not an administrator: nothing about a $$ key leaves this node
+        for l in ["C08.secure-guard", "C08.refused-write-not-forwarded"] { chk(&mut v, l, is_err(&r) && sent.is_empty()); }
+    } else if login.is_empty() || !ref_allowed(login, key, kind) {
+        for l in ["C09.permission-gate", "C09.refused-write-not-forwarded"] { chk(&mut v, l, is_err(&r) && sent.is_empty()); }
+        if login.is_empty() { chk(&mut v, "C09.needs-selected-db", is_err(&r) && sent.is_empty()); }
+    } else {
+        // an allowed set / increment is handed to the primary (non-vacuity of this family: the link is wired). A remove is applied locally only - observed, not judged here
+        if word != "remove" && !(sent.len() == 1 && sent[0].contains(" d ") && sent[0].contains(key)) { return Err("link silent".into()); }
+    }
+    Ok(v)
+}
+fn all_forward_scenarios() -> Vec<String> {
+    let mut out = vec![];
+    for l in 0..LOGIN.len() { for c in FORWARD_CMDS { out.push(format!("{}|{}", l, c)); } }
+    out
+}
+
+// ------------------------------------------------------------------ family: resub (C03: a subscription lasts until unwatch / disconnect - selecting a database again does not end it)
+fn scenario_resub(sc: &str) -> Result<Violations, String> {
+    // sc = events of ONE session separated by '.':  d (use-db d tok) e (use-db e etok) x (use-db d wrong) u (use-db d usr ut) w (watch sea) n (unwatch sea) a (unwatch-all) l (disconnect);
+    // after every event another client writes `sea` in d and in e: the session must be told exactly when it holds a subscription in that database
+    let w = mk_world(0);
+    let (mut admin, mut arx) = Client::new_empty_and_receiver();
+    for c in ["auth u p", "create-db e etok", "use-db e etok", "set sea 1", "set-permissions usr r sea"] { run_cmd(&w, &mut admin, &mut arx, c); }
+    let (mut wd, mut wdrx) = Client::new_empty_and_receiver();
+    let (mut we, mut werx) = Client::new_empty_and_receiver();
+    run_cmd(&w, &mut wd, &mut wdrx, "use-db d tok");
+    run_cmd(&w, &mut we, &mut werx, "use-db e etok");
+    let mut v: Violations = vec![];
+    let (mut c, mut rx) = Client::new_empty_and_receiver();
+    let mut sel: Option<&str> = None;
+    let mut sub: [usize; 2] = [0, 0];   // registrations in d, e
+    let mut n = 10;
+    for ev in sc.split('.').filter(|e| !e.is_empty()) {
+        let ok = catch_unwind(AssertUnwindSafe(|| {
+            match ev {
+                "d" => { if !is_err(&run_cmd(&w, &mut c, &mut rx, "use-db d tok").0) { sel = Some("d"); } }
+                "e" => { if !is_err(&run_cmd(&w, &mut c, &mut rx, "use-db e etok").0) { sel = Some("e"); } }
+                "u" => { if !is_err(&run_cmd(&w, &mut c, &mut rx, "use-db d usr ut").0) { sel = Some("d"); } }
+                "x" => { run_cmd(&w, &mut c, &mut rx, "use-db d wrong"); }
+                "w" => { if !is_err(&run_cmd(&w, &mut c, &mut rx, "watch sea").0) { if let Some(s) = sel { sub[if s == "d" { 0 } else { 1 }] += 1; } } }
+                "n" => { run_cmd(&w, &mut c, &mut rx, "unwatch sea"); if let Some(s) = sel { sub[if s == "d" { 0 } else { 1 }] = 0; } }
+                "a" => { run_cmd(&w, &mut c, &mut rx, "unwatch-all"); if let Some(s) = sel { sub[if s == "d" { 0 } else { 1 }] = 0; } }
+                _ => { c.left(&w.dbs); }
+            }
+        }));
+        if ok.is_err() { v.push("C10.safety".into()); return Ok(v); }
+        if ev == "l" { break; }
+        drain(&mut rx);
+        for (i, wr) in [(0usize, 0u8), (1, 1)] {
+            n += 1;
+            if wr == 0 { run_cmd(&w, &mut wd, &mut wdrx, &format!("set sea {}", n)); } else { run_cmd(&w, &mut we, &mut werx, &format!("set sea {}", n)); }
+            let got = drain(&mut rx);
+            let want = 2 * sub[i];
+            let okk = got.len() == want && got.iter().all(|m| m.contains(&n.to_string()) || m.starts_with("changed-version sea"));
+            chk(&mut v, "C03.subscription-window", okk);
+            if matches!(ev, "d" | "e" | "u" | "x") { chk(&mut v, "C03.use-db-keeps-subscriptions", okk); }
+        }
+    }
+    Ok(v)
+}
+fn all_resub_scenarios() -> Vec<String> {
+    let evs = ["d", "e", "u", "x", "w", "n", "a"];
+    let mut out = vec![];
+    fn rec(evs: &[&str], cur: &mut Vec<String>, depth: usize, out: &mut Vec<String>) {
+        if !cur.is_empty() && cur.iter().any(|e| e == "w") { out.push(cur.join(".")); }
+        if depth == 0 { return; }
+        for e in evs { cur.push(e.to_string()); rec(evs, cur, depth - 1, out); cur.pop(); }
+    }
+    rec(&evs, &mut vec!["d".to_string()], if deep() { 5 } else { 4 }, &mut out);
+    out
+}
+
+// ------------------------------------------------------------------ family: logthread (several operations through ONE run of the real replication thread)
+fn scenario_logthread(sc: &str) -> Result<Violations, String> {
+    // sc = "<role P|U>|<events>"  P: this node is the primary (operations go to the secondaries), U: starting up (operations go to every other member);
+    // events separated by '.':  o<k> write of key k<k>   i<k> increment   r<k> remove   - all to the known database, all handled by one replication thread
+    use nundb::disk_ops::{read_operations_since, snapshot_keys, Oplog};
+    use nundb::replication_ops::{replicate_message_with_sender, start_replication_thread};
+    let p: Vec<&str> = sc.split('|').collect();
+    if p.len() != 2 { return Err("bad scenario".into()); }
+    let dir = std::env::var("NUN_DBS_DIR").map_err(|_| "NUN_DBS_DIR not set")?;
+    Oplog::clean_op_log_metadata_files();
+    let _ = std::fs::remove_file(format!("{}/keys-nun.keys", dir));
+    let (sender, _receiver): (Sender<String>, Receiver<String>) = channel(1000);
+    let dbs = Arc::new(Databases::new("".into(), "".into(), "me:1".into(), "me:1".into(), sender.clone(), sender.clone(), HashMap::new(), 1, false));
+    let role = if p[0] == "P" { ClusterRole::Primary } else { ClusterRole::StartingUp };
+    dbs.node_state.swap(role as usize, std::sync::atomic::Ordering::Relaxed);
+    let db_id = dbs.next_db_id();
+    dbs.add_database(Database::new("kd".into(), DatabaseMataData::new(db_id, ConsensuStrategy::Newer)));
+    snapshot_keys(&dbs);
+    let (s1, mut r1): (Sender<String>, Receiver<String>) = channel(1000);
+    let (s2, mut r2): (Sender<String>, Receiver<String>) = channel(1000);
+    dbs.add_cluster_member(ClusterMember { name: "me:1".into(), role: if p[0] == "P" { ClusterRole::Primary } else { ClusterRole::Secoundary }, sender: None });
+    dbs.add_cluster_member(ClusterMember { name: "s1:1".into(), role: ClusterRole::Secoundary, sender: Some(s1) });
+    dbs.add_cluster_member(ClusterMember { name: "s2:1".into(), role: ClusterRole::Secoundary, sender: Some(s2) });
+    let mut v: Violations = vec![];
+    let evs: Vec<&str> = p[1].split('.').filter(|e| !e.is_empty()).collect();
+    let mut ids: Vec<(u64, String)> = vec![];
+    let ok = catch_unwind(AssertUnwindSafe(|| {
+        let (mut tx, rx): (Sender<String>, Receiver<String>) = channel(100);
+        for ev in &evs {
+            let key = format!("k{}", &ev[1..]);
+            let msg = match &ev[0..1] { "o" => format!("replicate kd {} -1 v", key), "i" => format!("replicate-increment kd {} 1", key), _ => format!("replicate-remove kd {}", key) };
+            ids.push((replicate_message_with_sender(&tx, msg).unwrap(), key));
+        }
+        tx.try_send("exit".to_string()).unwrap();
+        futures::executor::block_on(start_replication_thread(rx, dbs.clone()));
+    }));
+    if ok.is_err() { v.push("C10.safety".into()); return Ok(v); }
+    // ---- C05 / C12: a node that was away since just before operation i is told about the key of operation i, whatever was logged before
+    let key_ids = dbs.keys_map.read().unwrap().clone();
+    for (t, key) in &ids {
+        let since = read_operations_since(*t);
+        let kid = key_ids.get(key).cloned().unwrap_or(u64::MAX);
+        let found = since.contains_key(&format!("{}_{}", db_id, kid));
+        for l in ["C05.rewritten-key-is-resent", "C12.every-operation-logged", "C12.after", "C12.at"] { chk(&mut v, l, found); }
+    }
+    chk(&mut v, "C12.last-op-time", ids.last().map_or(true, |(t, _)| Oplog::last_op_time() == *t));
+    chk(&mut v, "C12.newest-record-is-in-the-live-file", ids.last().map_or(true, |(t, _)| Oplog::last_op_time() == *t));
+    // ---- C15: each operation is pending for exactly the nodes it was sent to (never for this node itself), and for nobody once they have all acknowledged
+    let got1 = drain(&mut r1); let got2 = drain(&mut r2);
+    for l in ["C15.sent-to-every-target", "C15.pending-only-for-nodes-sent-to"] { chk(&mut v, l, got1.len() == ids.len() && got2.len() == ids.len()); }
+    for (t, _) in &ids {
+        let names: Option<Vec<String>> = dbs.get_pending_opp_copy(*t).map(|m| { let mut n: Vec<String> = m.replications.lock().unwrap().keys().cloned().collect(); n.sort(); n });
+        let want = vec!["s1:1".to_string(), "s2:1".to_string()];
+        for l in ["C15.pending-only-for-nodes-sent-to", "C15.not-pending-for-self", "C15.register-pending"] { chk(&mut v, l, names.as_ref() == Some(&want)); }
+        dbs.acknowledge_pending_opp(*t, &"s1:1".to_string());
+        chk(&mut v, "C15.pending-iff-owing", dbs.get_pending_opp_copy(*t).is_some());
+        dbs.acknowledge_pending_opp(*t, &"s2:1".to_string());
+        for l in ["C15.returns-to-zero", "C15.pending-iff-owing", "C15.not-pending-for-self"] { chk(&mut v, l, dbs.get_pending_opp_copy(*t).is_none()); }
+    }
+    Oplog::clean_op_log_metadata_files();
+    Ok(v)
+}
+fn all_logthread_scenarios() -> Vec<String> {
+    let evs = ["o1", "o2", "i1", "r1"];
+    let mut hist = vec![];
+    fn rec(evs: &[&str], cur: &mut Vec<String>, depth: usize, out: &mut Vec<String>) {
+        if !cur.is_empty() { out.push(cur.join(".")); }
+        if depth == 0 { return; }
+        for e in evs { cur.push(e.to_string()); rec(evs, cur, depth - 1, out); cur.pop(); }
+    }
+    rec(&evs, &mut vec![], if deep() { 4 } else { 3 }, &mut hist);
+    let mut out = vec![];
+    for h in hist { for r in ["P", "U"] { out.push(format!("{}|{}", r, h)); } }
+    out
+}
+
+// ------------------------------------------------------------------ family: logroll (the oplog writer across file rotations: NUN_MAX_OP_LOG_SIZE is set to 5000 by main, 20 records per file)
+fn scenario_logroll(sc: &str) -> Result<Violations, String> {
+    // sc = "<number of records>": written one by one with Oplog::try_write_op_log; after each, the last-operation time and the catch-up query are judged
+    use nundb::disk_ops::{read_operations_since, Oplog};
+    let n: u64 = sc.parse().map_err(|_| "bad count")?;
+    Oplog::clean_op_log_metadata_files();
+    let mut v: Violations = vec![];
+    let ok = catch_unwind(AssertUnwindSafe(|| {
+        let mut viol: Violations = vec![];
+        let mut stream = Oplog::get_log_file_append_mode();
+        for i in 1..=n {
+            let t = 1000 + i;
+            let r = Oplog::try_write_op_log(&mut stream, Some(1), i % 3, &ReplicateOpp::Update, t);
+            if r.is_err() { continue; }
+            let lt = Oplog::last_op_time();
+            for l in ["C12.last-op-time", "C12.newest-record-is-in-the-live-file"] { chk(&mut viol, l, lt == t); }
+            let since = read_operations_since(t);
+            let rec = since.get(&format!("1_{}", i % 3));
+            for l in ["C12.all-files-after", "C12.after", "C12.at", "C12.every-operation-logged"] { chk(&mut viol, l, rec.is_some()); }
+            for l in ["C12.all-files-latest", "C12.latest"] { chk(&mut viol, l, rec.map_or(false, |o| o.timestamp == t)); }
+        }
+        viol
+    }));
+    match ok { Ok(x) => v.extend(x), Err(_) => v.push("C10.safety".into()) }
+    Oplog::clean_op_log_metadata_files();
+    Ok(v)
+}
+fn all_logroll_scenarios() -> Vec<String> { vec!["19".into(), "21".into(), if deep() { "130".into() } else { "45".into() }] }
 
 // ------------------------------------------------------------------ family: permchange (C09: a permission list changed while the user's session is open)
 const PC_USERS: [(&str, &str); 3] = [("usr", "use-db d usr ut"), ("nolist", "use-db d nolist nt"), ("star", "use-db d star st")];
@@ -1511,7 +1756,10 @@ fn families() -> Vec<(&'static str, fn() -> Vec<String>, fn(&str) -> Result<Viol
          ("tcpserver", all_tcpserver_scenarios, scenario_tcpserver),
          ("race", all_race_scenarios, scenario_race),
          ("oplogdisk", all_oplogdisk_scenarios, scenario_oplogdisk),
-         ("wsserver", all_wsserver_scenarios, scenario_wsserver)]
+         ("wsserver", all_wsserver_scenarios, scenario_wsserver),
+         ("values", all_values_scenarios, scenario_values), ("forward", all_forward_scenarios, scenario_forward),
+         ("resub", all_resub_scenarios, scenario_resub), ("logthread", all_logthread_scenarios, scenario_logthread),
+         ("logroll", all_logroll_scenarios, scenario_logroll)]
 }
 /// the properties whose clause labels a family can report (every family reports C10.safety when a call panics, so C10 runs them all)
 fn family_props(fam: &str) -> &'static [&'static str] {
@@ -1519,6 +1767,7 @@ fn family_props(fam: &str) -> &'static [&'static str] {
         "store" => &["C01", "C02", "C03", "C08"], "strategy" => &["C02", "C13", "C19"], "pending" => &["C15"], "ids" => &["C16"], "keymap" => &["C16"],
         "oplog" => &["C12"], "session" => &["C01", "C08", "C09"], "permchange" => &["C09"], "arbiter" => &["C13"], "watch" => &["C03"], "lines" => &[], "flood" => &[],
         "connections" => &["C17"], "snapshot" => &["C01", "C06"], "resync" => &["C05"], "election" => &["C07"], "http" => &["C20"], "httpserver" => &["C08", "C09", "C17", "C20"], "tcpserver" => &["C03", "C17"], "race" => &["C01", "C02"], "oplogdisk" => &["C16"], "wsserver" => &["C03", "C17", "C20"],
+        "values" => &["C01", "C03"], "forward" => &["C08", "C09"], "resub" => &["C03"], "logthread" => &["C05", "C12", "C15"], "logroll" => &["C12"],
         _ => &[],
     }
 }
@@ -1527,6 +1776,8 @@ fn main() {
     std::panic::set_hook(Box::new(|_| {}));
     // the election wait loops poll every 2 ms up to this timeout (lazy_static, read once): keep the two-member scenarios short, but long enough for the helper thread of the `2r` variant to register the candidacy under load
     if std::env::var("NUN_ELECTION_TIMEOUT").is_err() { std::env::set_var("NUN_ELECTION_TIMEOUT", "30"); }
+    // the oplog rolls over to a new file after 20 records (lazy_static, read once): the families that write more than that exercise the rotation
+    if std::env::var("NUN_MAX_OP_LOG_SIZE").is_err() { std::env::set_var("NUN_MAX_OP_LOG_SIZE", "5000"); }
     if std::env::var("NUN_DBS_DIR").is_err() {
         let d = format!("/var/tmp/verif-replay-data/{}", std::process::id());
         std::fs::create_dir_all(&d).unwrap();
